@@ -431,6 +431,7 @@ class DiscKernel:
         self.key, self.seed = key, seed
         self.shape = shape_name(key)
         self.width = width_of(key)
+        self.samples = []
         self.fails = []
         self.stats = {"actor_calls": 0, "ppo_calls": 0, "ippo_calls": 0, "rows": 0}
 
@@ -473,6 +474,10 @@ class DiscKernel:
                 self.stats["rows"] += 1
                 self.fail("actor", "sample", check_disc_row(c, a[i], lp[i], ent[i], "sample"), c, batch=len(part), row=i)
                 self.fail("actor", "eval", check_disc_row(c, ea, lp2[i], ent2[i], "eval"), c, batch=len(part), row=i, action=ea)
+                if not self.samples and not all_ones(c) and prob_of(c, ea)[0] not in (0.0, 1.0):
+                    self.samples.append({"level": "actor", "shape": self.shape, "p/8": c["p"], "mask": c["m"], "stored_action": ea,
+                                         "spec_P": f"{table_of(c)[tuple(ea)][0]}/{c['den']}", "reported_exp_log_prob": float(math.exp(lp2[i])),
+                                         "reported_entropy": float(ent2[i]), "spec_entropy": entropy_of(c)})
 
     # ------------------------------------------------------------------ PPO
     def run_ppo(self, cases, stride=1, off=0):
@@ -683,6 +688,7 @@ class BoxKernel:
     def __init__(self, d, seed, squash=False):
         self.key, self.d, self.seed, self.squash = ("box", (d,)), d, seed, squash
         self.shape = shape_name(self.key, squash)
+        self.samples = []
         self.fails = []
         self.stats = {"actor_calls": 0, "ppo_calls": 0, "ippo_calls": 0, "rows": 0}
 
@@ -743,6 +749,10 @@ class BoxKernel:
                     self.stats["rows"] += 1
                     self.fail("actor", "sample", check_box_row(c, a[i], lp[i], ent[i], u_want=pts[i][0], qn=pts[i][1], squash=self.squash,
                                                                path="sample"), c, batch=len(part), row=i)
+                    if not self.samples and self.d == 2 and pts[i][1] > 0:
+                        self.samples.append({"level": "actor", "shape": self.shape, "mu*4": c["mu"], "log2_std": c["ks"], "draw": pts[i][0],
+                                             "spec": f"-{pts[i][1]}/128 - {c['kk']} ln2 - {self.d}/2 ln(2pi)" + (" - sum log(1-a^2+1e-6)" if self.squash else ""),
+                                             "returned_action": a[i].tolist(), "reported_log_prob": float(lp[i])})
                 # stored actions: the case's own grid point, against the distribution of this forward pass
                 el = [i for i, c in enumerate(part) if self._ok(c)]
                 stored = np.array([np.tanh(box_point(c)) if self.squash else box_point(c) for c in part], dtype=np.float32)
